@@ -152,6 +152,9 @@ def structure(snap, dim):
             u, cnt = np.unique(p, axis=0, return_counts=True)
             coin = max(coin, int(cnt.max()))
     facts['max_coincident'] = coin
+    hs = np.concatenate([s['h'] for s in snap]) if snap else np.zeros(0)
+    facts['h_ratio'] = float(hs.max() / hs.min()) if len(hs) and \
+        hs.min() > 0 else 1.0
     if tot:
         ext = []
         for c in 'xyz':
@@ -165,13 +168,18 @@ def structure(snap, dim):
 
 def condition(cls, facts, knobs):
     """The structural condition part of a mechanism key."""
+    knobs = knobs or {}
+    if cls in OFAM and facts.get('max_coincident', 0) >= \
+            knobs.get('leaf_max_particles', 10):
+        return 'coincident>=leaf'
     if facts.get('empty_array'):
         return 'empty-array'
-    if cls in OFAM and facts.get('max_coincident', 0) >= \
-            (knobs or {}).get('leaf_max_particles', 10):
-        return 'coincident>=leaf'
     if cls in ZFAM and len(facts.get('n', [0])) > 1:
         return 'multi-array'
+    if cls == 'ExtendedZOrderNNPS' and knobs.get('H', 3) > 1 and \
+            not knobs.get('asymmetric', False) and \
+            facts.get('h_ratio', 1.0) > 1.0 + 1e-9:
+        return 'H>1,symmetric,variable-h'
     return 'regular'
 
 
@@ -292,8 +300,9 @@ def classify(cls, kind, facts, case, knobs=None):
     if kind in UNRELIABLE_KINDS and fam == 'stratified-sfc':
         return 'stratified-sfc:unreliable:any-input'
     if kind in UNRELIABLE_KINDS and (
-            (fam == 'zorder-family' and cond in ('multi-array',
-                                                 'empty-array')) or
+            (fam == 'zorder-family' and cond in (
+                'multi-array', 'empty-array',
+                'H>1,symmetric,variable-h')) or
             (fam == 'octree-family' and cond == 'coincident>=leaf')):
         return '%s:unreliable:%s' % (fam, cond)
     return '%s:%s:%s' % (fam, kind, cond)
@@ -363,7 +372,8 @@ def too_costly(cls, knobs, snap, dim):
     H = knobs.get('H', 1)
     if cls in ('ExtendedSpatialHashNNPS', 'ExtendedZOrderNNPS'):
         ratio = 1.0
-    return (2 * np.ceil(H * ratio) + 1) ** dim > 2e5
+    # the stencil tables of these classes are cubic whatever `dim` is
+    return (2 * np.ceil(H * ratio) + 1) ** 3 > 2e5
 
 
 def construct(cls, dim, pas, rs, knobs, cache, sort_gids):
